@@ -19,9 +19,9 @@ import (
 
 func init() {
 	core.Register(&core.Check{
-		ID:    "C05",
-		Level: "exploration",
-		Rule: "a valid generated base program (effects at the very start and in every block, functions, an event handler, graphics calls) plus exactly one rule-breaking edit from a catalogue of 29 edit kinds (undeclared/unused variable, variable of a sibling if-branch, redeclaration incl. parameters, parameter without the colon between name and type, loop variables, built-in globals and function names, type mismatches, argument counts, missing return at the end and in a single branch of an if/else-if/else chain, unreachable code (directly after the terminating statement and after comment / blank lines), break outside a loop, return value in a procedure/handler/top level, bare return in a function, unknown function, call of a procedure used as a value (element, map value, operand, argument, declaration), stray tokens after statements and after every kind of end, two statements on one line, non-bool condition), applied at every line where the rule applies; each case runs in-process through Evaluator.Run with the recording platform and, sampled, through the real `evy run` (with and without --svg-out). distinct = distinct (edit kind, line kind, error message shape)",
+		ID:          "C05",
+		Level:       "exploration",
+		Rule:        "a valid generated base program (effects at the very start and in every block, functions, an event handler, graphics calls) plus exactly one rule-breaking edit from a catalogue of 29 edit kinds (undeclared/unused variable, variable of a sibling if-branch, redeclaration incl. parameters, parameter without the colon between name and type, loop variables, built-in globals and function names, type mismatches, argument counts, missing return at the end and in a single branch of an if/else-if/else chain, unreachable code (directly after the terminating statement and after comment / blank lines), break outside a loop, return value in a procedure/handler/top level, bare return in a function, unknown function, call of a procedure used as a value (element, map value, operand, argument, declaration), stray tokens after statements and after every kind of end, two statements on one line, non-bool condition), applied at every line where the rule applies; each case runs in-process through Evaluator.Run with the recording platform and, sampled, through the real `evy run` (with and without --svg-out). distinct = distinct (edit kind, line kind, error message shape)",
 		Assumptions: []string{"base programs are produced by the C10 generator (accepted by construction; a rejected base is reported as a harness failure)"},
 		NeedsEvy:    true,
 		NumCases: func(tier string) int {
@@ -38,13 +38,13 @@ func init() {
 var identRe = regexp.MustCompile(`^[a-z][a-zA-Z0-9_]*$`)
 
 type c05Line struct {
-	text    string
-	indent  string
-	kind    string // decl, typed, assign, call, if, elseif, else, while, for, func, on, end, return, break, other
-	inLoop  bool
-	inFunc  string // "", "proc", "func" (has return type), "on"
-	endOf   string // for end lines: construct closed
-	endRet  bool   // return line that is the last statement of a function body
+	text   string
+	indent string
+	kind   string // decl, typed, assign, call, if, elseif, else, while, for, func, on, end, return, break, other
+	inLoop bool
+	inFunc string // "", "proc", "func" (has return type), "on"
+	endOf  string // for end lines: construct closed
+	endRet bool   // return line that is the last statement of a function body
 }
 
 func classifyLines(src string) []c05Line {
@@ -310,6 +310,15 @@ func c05Edits() []c05Edit {
 			}
 			return replaceLine(ls, i, ls[i].indent+ls[i].kind+" 1"), true
 		}},
+		{"non-bool-condition", func(ls []c05Line, i int) (string, bool) {
+			// a condition of static type any (variable, element of a mixed literal, field of a mixed map)
+			if ls[i].kind != "if" && ls[i].kind != "while" && ls[i].kind != "elseif" {
+				return "", false
+			}
+			kw := map[string]string{"if": "if", "while": "while", "elseif": "else if"}[ls[i].kind]
+			cond := []string{"anyq", "anymap_q.a", "[true 1][0]", "(anyq)", "{k:true l:\"s\"}.k"}[i%5]
+			return replaceLine(ls, i, ls[i].indent+kw+" "+cond), true
+		}},
 		{"stray-after-statement", func(ls []c05Line, i int) (string, bool) {
 			switch ls[i].kind {
 			case "decl", "assign", "typed", "return", "break", "if", "elseif", "while", "for", "else":
@@ -356,7 +365,7 @@ func c05Base(c *core.Ctx) string {
 	chain, _ := returnPathsSource(c.Rng, n, nil, []string{"num", "string"}[c.Rng.Intn(2)])
 	chain = strings.Replace(chain, "return ", "return  ", -1) // marks the branch returns for the edit catalogue
 	// a procedure (no return value): its call is a statement, never a value
-	proc := "func noret_q\n    print \"noret\"\nend\n"
+	proc := "func noret_q\n    print \"noret\"\nend\nanyq:any\nanymap_q := {a:true b:1}\nprint anyq anymap_q\n"
 	return head + base + chain + proc + tail
 }
 
